@@ -163,6 +163,27 @@ Proof.
   rewrite Forall_forall in HL. eapply succs_I2; [apply HL; exact Hs | exact Hu'].
 Qed.
 
+(* ---------- the first layer: all admissible initial states of all start candidates ---------- *)
+Definition initall (xs : list Z) (acc : list st) : list st :=
+  fold_left (fun a x => insall (init_choices P ieps x) a) xs acc.
+Lemma initall_keep : forall xs acc u, In u acc -> In u (initall xs acc).
+Proof. induction xs as [|x xs IH]; intros acc u H; simpl; [exact H|]. apply IH. apply insall_keep. exact H. Qed.
+Lemma initall_in : forall xs acc u, In u (initall xs acc) ->
+  In u acc \/ exists x, In x xs /\ In u (init_choices P ieps x).
+Proof.
+  induction xs as [|x xs IH]; intros acc u H; simpl in *; [left; exact H|].
+  destruct (IH _ _ H) as [H1|(y & Hy & Hu)].
+  - destruct (insall_in _ _ _ H1) as [H2|H2]; [right; exists x; split; [left; reflexivity | exact H2] | left; exact H2].
+  - right. exists y. split; [right; exact Hy | exact Hu].
+Qed.
+Lemma initall_has : forall xs acc x t, In x xs -> In t (init_choices P ieps x) ->
+  exists u, In u (initall xs acc) /\ same_key t u = true.
+Proof.
+  induction xs as [|a xs IH]; intros acc x t H Ht; [destruct H|]. simpl.
+  destruct H as [->|H]; [|eapply IH; eassumption].
+  destruct (insall_has _ acc t Ht) as (u & Hu & Ku). exists u. split; [apply initall_keep; exact Hu | exact Ku].
+Qed.
+
 (* ---------- one layer of the walk ---------- *)
 Variables sc c : Q.
 Variable reach : list st.
@@ -274,47 +295,49 @@ Proof.
   - apply Qltb_false in E. apply Qltb_false. apply Qmult_le_l; assumption.
 Qed.
 
-Lemma guard_more : forall c0 s t, seqv t s ->
-  (more P c0 s = false -> fst (guard_choices P ieps sc (sc * c0) t) = true) /\
-  (more P c0 s = true -> snd (guard_choices P ieps sc (sc * c0) t) = true /\ has_mass P t = true).
+Lemma guard_more : forall c0 c' s t, c' == sc * c0 -> seqv t s ->
+  (more P c0 s = false -> fst (guard_choices P ieps sc c' t) = true) /\
+  (more P c0 s = true -> snd (guard_choices P ieps sc c' t) = true /\ has_mass P t = true).
 Proof.
-  intros c0 s t H. destruct (seqv_lp P t s H) as [L R]. destruct H as (_ & _ & _ & A).
-  unfold guard_choices, more, has_mass. cbn [fst snd]. rewrite Qltb_scale, L, R.
+  intros c0 c' s t Hc' H. destruct (seqv_lp P t s H) as [L R]. destruct H as (_ & _ & _ & A).
+  unfold guard_choices, more, has_mass. cbn [fst snd].
+  rewrite (Qltb_comp _ _ _ _ (Qeq_refl (sc * s_acc t)) Hc').
+  rewrite Qltb_scale, L, R.
   rewrite (Qltb_comp _ _ _ _ A (Qeq_refl c0)).
   destruct (Qltb (s_acc s) c0); destruct (Qltb 0 (lp P s) || Qltb 0 (rp P s)); simpl; split; intros; try discriminate; auto.
 Qed.
 
-Lemma walk_sound : forall c0 fuel s sf, loop P c0 fuel s = Some sf -> I2 P s ->
+Lemma walk_sound : forall c0 c', c' == sc * c0 -> forall fuel s sf, loop P c0 fuel s = Some sf -> I2 P s ->
   forall gf L g reach outs t, graph P ieps gf L = Some g -> Forall (I2 P) L -> Forall (I2 P) outs ->
   In t L -> existsb (same_key t) reach = true -> seqv t s ->
-  exists u, In u (walk P ieps sc (sc * c0) g reach outs) /\ seqv u sf.
+  exists u, In u (walk P ieps sc c' g reach outs) /\ seqv u sf.
 Proof.
-  intros c0. induction fuel as [|fuel IH]; intros s sf Hloop Hs gf L g reach outs t Hg HL Ho Ht Hr Hts.
+  intros c0 c' Hc'. induction fuel as [|fuel IH]; intros s sf Hloop Hs gf L g reach outs t Hg HL Ho Ht Hr Hts.
   all: destruct L as [|a L']; [destruct Ht|].
   all: destruct (graph_cons P ieps gf a L' g Hg) as (f0 & g' & -> & -> & Hg').
   all: rewrite walk_cons.
-  all: set (R := fold_left (WF P ieps sc (sc * c0) reach) (nodes_of P ieps (a :: L')) (outs, [])).
+  all: set (R := fold_left (WF P ieps sc c' reach) (nodes_of P ieps (a :: L')) (outs, [])).
   all: assert (Hnode : In (t, succs P ieps t) (nodes_of P ieps (a :: L')))
          by (unfold nodes_of; apply in_map_iff; exists t; split; [reflexivity | exact Ht]).
   all: assert (HtI : I2 P t) by (rewrite Forall_forall in HL; apply HL; exact Ht).
   all: assert (HoI : forall u, In u (fst R) -> I2 P u).
-  1,3: intros u Hu; destruct (proj1 (wf_in P ieps sc (sc * c0) reach _ outs [] u) Hu) as [H1|(nd & Hn & ->)];
+  1,3: intros u Hu; destruct (proj1 (wf_in P ieps sc c' reach _ outs [] u) Hu) as [H1|(nd & Hn & ->)];
        [rewrite Forall_forall in Ho; apply Ho; exact H1|];
        unfold nodes_of in Hn; apply in_map_iff in Hn as (z & <- & Hz); simpl;
        rewrite Forall_forall in HL; apply HL; exact Hz.
   all: simpl in Hloop; destruct (more P c0 s) eqn:Hm; try discriminate.
   (* the loop stops at s *)
   1,3: injection Hloop as <-;
-       destruct (wf_stop P ieps sc (sc * c0) reach _ outs [] t _ Hnode Hr (proj1 (guard_more c0 s t Hts) Hm)) as (u & Hu & Ku);
+       destruct (wf_stop P ieps sc c' reach _ outs [] t _ Hnode Hr (proj1 (guard_more c0 c' s t Hc' Hts) Hm)) as (u & Hu & Ku);
        fold R in Hu; exists u; split;
        [ destruct (snd R); [exact Hu | apply walk_keep; exact Hu]
        | apply seqv_trans with t; [apply seqv_sym; apply (key_seqv P); [exact HtI | apply HoI; exact Hu | exact Ku] | exact Hts] ].
   (* the loop goes on *)
-  destruct (proj2 (guard_more c0 s t Hts) Hm) as [Hgo Hmass].
+  destruct (proj2 (guard_more c0 c' s t Hc' Hts) Hm) as [Hgo Hmass].
   destruct (step_is_choice P ieps t) as [Hin Heq].
   assert (Hst : In (step P t) (succs P ieps t)).
   { unfold succs. rewrite Hmass. rewrite <- Heq. apply in_map. exact Hin. }
-  destruct (wf_go P ieps sc (sc * c0) reach _ outs [] t _ (step P t) Hnode Hr Hgo Hst) as (u & Hu & Ku).
+  destruct (wf_go P ieps sc c' reach _ outs [] t _ (step P t) Hnode Hr Hgo Hst) as (u & Hu & Ku).
   fold R in Hu.
   destruct (nextof_has (nodes_of P ieps (a :: L')) [] _ (step P t) Hnode Hst) as (t' & Ht' & Kt').
   assert (HsI : I2 P (step P s)).
@@ -333,33 +356,34 @@ Proof.
 Qed.
 
 (* the deterministic result is always one of the admissible outcomes *)
-Theorem set_contains_det : forall n x c0 g r,
-  qci_graph P ieps n [x] = Some g -> qci_small P n x c0 = Some r ->
-  exists r', In r' (qci_small_set P ieps n g sc (sc * c0)) /\
+Theorem set_contains_det_gen : forall n xs x c0 c' g r, c' == sc * c0 -> In x xs ->
+  qci_graph P ieps n xs = Some g -> qci_small P n x c0 = Some r ->
+  exists r', In r' (qci_small_set P ieps n g sc c') /\
              r_lo r' = r_lo r /\ r_hi r' = r_hi r /\ r_amb r' = r_amb r /\ r_conf r' == r_conf r.
 Proof.
-  intros n x c0 g r Hg Hr. unfold qci_small in Hr.
+  intros n xs x c0 c' g r Hc' Hxs Hg Hr. unfold qci_small in Hr.
   destruct (loop P c0 (Z.to_nat (n + 1)) (st_init P x)) as [sf|] eqn:Hloop; [|discriminate]. injection Hr as <-.
-  unfold qci_graph in Hg. cbn [fold_left] in Hg.
-  change (fold_left (fun a t => insert_st t a) (init_choices P ieps x) []) with (insall (init_choices P ieps x) []) in Hg.
-  set (L0 := insall (init_choices P ieps x) []) in *.
-  assert (Hinit : forall u, In u (init_choices P ieps x) -> I2 P u).
-  { intros u Hu. unfold init_choices in Hu.
-    assert (E : forall b, I2 P (mkSt x (x + 1) (P x) b)).
-    { intros b. unfold I2; simpl. split; [lia|]. replace (x + 1 - 1)%Z with x by lia. rewrite Qsum_range_single. reflexivity. }
-    destruct (near ieps (P (x + 1)) (P x)); simpl in Hu; intuition (subst; try apply E). }
+  unfold qci_graph in Hg.
+  change (fold_left (fun a x0 => fold_left (fun a0 t => insert_st t a0) (init_choices P ieps x0) a) xs [])
+    with (initall P ieps xs []) in Hg.
+  set (L0 := initall P ieps xs []) in *.
+  assert (Hinit : forall y u, In u (init_choices P ieps y) -> I2 P u).
+  { intros y u Hu. unfold init_choices in Hu.
+    assert (E : forall b, I2 P (mkSt y (y + 1) (P y) b)).
+    { intros b. unfold I2; simpl. split; [lia|]. replace (y + 1 - 1)%Z with y by lia. rewrite Qsum_range_single. reflexivity. }
+    destruct (near ieps (P (y + 1)) (P y)); simpl in Hu; intuition (subst; try apply E). }
   assert (HL0 : Forall (I2 P) L0).
-  { apply Forall_forall. intros u Hu. destruct (insall_in _ _ _ Hu) as [H|[]]. apply Hinit. exact H. }
+  { apply Forall_forall. intros u Hu. destruct (initall_in _ _ _ _ _ Hu) as [[]|(y & _ & H)]. apply (Hinit y). exact H. }
   assert (Hin0 : In (st_init P x) (init_choices P ieps x)).
   { unfold init_choices, st_init. destruct (near ieps (P (x + 1)) (P x)); [|left; reflexivity].
     destruct (Qeq_bool (P (x + 1)) (P x)); [left | right; left]; reflexivity. }
-  destruct (insall_has _ [] _ Hin0) as (t0 & Ht0 & Kt0). fold L0 in Ht0.
-  assert (HsI : I2 P (st_init P x)) by (apply Hinit; exact Hin0).
+  destruct (initall_has P ieps xs [] x _ Hxs Hin0) as (t0 & Ht0 & Kt0). fold L0 in Ht0.
+  assert (HsI : I2 P (st_init P x)) by (apply (Hinit x); exact Hin0).
   destruct L0 as [|a L'] eqn:EL; [destruct Ht0|].
   destruct (graph_cons P ieps _ a L' g Hg) as (f0 & g' & _ & Eg & _).
   assert (Hts : seqv t0 (st_init P x)).
   { apply (key_seqv P); [rewrite Forall_forall in HL0; apply HL0; exact Ht0 | exact HsI | apply same_key_sym; exact Kt0]. }
-  destruct (walk_sound c0 _ _ _ Hloop HsI _ (a :: L') g (a :: L') [] t0 Hg HL0 (Forall_nil _) Ht0) as (u & Hu & Su).
+  destruct (walk_sound c0 c' Hc' _ _ _ Hloop HsI _ (a :: L') g (a :: L') [] t0 Hg HL0 (Forall_nil _) Ht0) as (u & Hu & Su).
   { apply existsb_exists. exists t0. split; [exact Ht0 | apply same_key_refl]. }
   { exact Hts. }
   exists (clampR n (s_l u) (s_r u) (s_acc u) (s_amb u)). split.
@@ -369,4 +393,16 @@ Proof.
     + unfold nodes_of. rewrite map_map. simpl. f_equal. symmetry. apply map_id.
   - destruct Su as (A & B & C & D). unfold clampR; simpl. rewrite A, B, C. repeat split; try reflexivity. exact D.
 Qed.
+
+Theorem set_contains_det_eqv : forall n x c0 c' g r, c' == sc * c0 ->
+  qci_graph P ieps n [x] = Some g -> qci_small P n x c0 = Some r ->
+  exists r', In r' (qci_small_set P ieps n g sc c') /\
+             r_lo r' = r_lo r /\ r_hi r' = r_hi r /\ r_amb r' = r_amb r /\ r_conf r' == r_conf r.
+Proof. intros n x c0 c' g r Hc'. apply set_contains_det_gen; [exact Hc' | left; reflexivity]. Qed.
+
+Theorem set_contains_det : forall n x c0 g r,
+  qci_graph P ieps n [x] = Some g -> qci_small P n x c0 = Some r ->
+  exists r', In r' (qci_small_set P ieps n g sc (sc * c0)) /\
+             r_lo r' = r_lo r /\ r_hi r' = r_hi r /\ r_amb r' = r_amb r /\ r_conf r' == r_conf r.
+Proof. intros n x c0 g r. apply set_contains_det_eqv. reflexivity. Qed.
 End WalkSound.
